@@ -9,6 +9,10 @@ code -> spec : seeded random sessions (0-12 items, 4 metadata keys, values from 
                hashables incl. 1/True/1.0 collisions, two base browsers, chains up to 4 operations) are
                executed on the real class, the observations recorded as JSON and the batch validated by
                TLC against BrowserTrace.tla (which re-runs the session through the naive scan).
+spelling     : the specification knows the required / forbidden keys of a query as SETS; how the caller hands such
+               a set over (tuple, list, set, frozenset, dict view, generator, iterator, map object, a list naming a
+               key twice, the default of an omitted argument; by keyword or positionally) is varied in rotation
+               over all the sessions of both directions (see SPELLINGS) and recorded in the case.
 """
 import copy
 import json
@@ -145,6 +149,120 @@ def abstract_token(rend, tok):
 
 
 # ---------------------------------------------------------------------------------------------
+# spellings of a collection-valued argument.  Browser.tla has `incl` / `excl` as sets of keys; a caller may hand
+# the same set over in many ways and the answer must not depend on it.  ONE-SHOT iterables can be walked only once.
+
+SPELLINGS = {
+    'tuple': tuple,                                            # the spelling of the documentation
+    'list': list,
+    'set': set,
+    'frozenset': frozenset,
+    'dict-keys': lambda keys: dict.fromkeys(keys, 0).keys(),   # a dictionary view
+    'generator': lambda keys: (k for k in keys),               # one-shot
+    'iterator': lambda keys: iter(list(keys)),                 # one-shot
+    'map': lambda keys: map(str, keys),                        # one-shot (keys are strings)
+    'repeated': lambda keys: list(keys) + list(keys)[::-1],    # every key named twice
+    'omitted': tuple,                                          # empty sets only: the argument is not passed at all
+}
+SPELL_ORDER = ['tuple', 'generator', 'list', 'omitted', 'set', 'iterator', 'dict-keys', 'frozenset', 'map', 'repeated']
+CALLS = ['kw', 'pos1', 'pos2']     # filter_by(include=, exclude=) / filter_by(incl, exclude=) / filter_by(incl, excl)
+PLAIN = ('tuple', 'tuple')
+
+
+def assign_spellings(case, n):
+    """Give every query of the session a spelling of its include / exclude arguments and (filter_by only: the
+    arguments of select_by are keyword-only) a calling convention, in rotation driven by the integer `n`: no
+    additional sessions, every session is run under one combination.  Recorded in the case (op['spell'], op['call'])."""
+    ns = len(SPELL_ORDER)
+    for j, op in enumerate(case['ops']):
+        if op['kind'] == 'merge':
+            continue
+        m = n + 31 * j
+        call = CALLS[(m // (ns * ns)) % len(CALLS)] if op['kind'] == 'filter' else 'kw'
+        spell = [SPELL_ORDER[m % ns], SPELL_ORDER[(m // ns) % ns]]
+        for a, (keys, positional) in enumerate(((op['incl'], call != 'kw'), (op['excl'], call == 'pos2'))):
+            if spell[a] == 'omitted' and (keys or positional):
+                spell[a] = 'tuple'         # only an empty keyword argument can be left out
+        op['spell'], op['call'] = spell, call
+    return case
+
+
+def _how(op):
+    if op['kind'] == 'merge':
+        return 'merge'
+    si, se = op.get('spell', PLAIN)
+    return '%s, include as %s, exclude as %s, %s' % (op['kind'], si, se, {'kw': 'by keyword', 'pos1': 'include positional',
+                                                                          'pos2': 'include and exclude positional'}[op.get('call', 'kw')])
+
+
+def _query_call(rend, op, dk):
+    """(args, kwargs) of filter_by / select_by for the query of `op` on a browser whose data key is `dk`."""
+    si, se = op.get('spell', PLAIN)
+    call = op.get('call', 'kw') if op['kind'] == 'filter' else 'kw'
+    incl = [_qkey(rend, k, dk) for k in op['incl']]
+    excl = [_qkey(rend, k, dk) for k in op['excl']]
+    args, kwargs = [], _kwargs(rend, op['kw'], dk)
+    for name, keys, spell, positional in (('include', incl, si, call != 'kw'), ('exclude', excl, se, call == 'pos2')):
+        if spell == 'omitted' and not keys and not positional:
+            continue
+        if positional:
+            args.append(SPELLINGS[spell](keys))
+        else:
+            kwargs[name] = SPELLINGS[spell](keys)
+    return args, kwargs
+
+
+def respelled(case):
+    """The same session with the arguments re-spelled the plain way: name -> case (only those that differ).
+    incl / excl: that argument as a tuple in every query; both: both of them; plain: both and by keyword."""
+    out = {}
+    for name, (pi, pe, pc) in (('incl', (1, 0, 0)), ('excl', (0, 1, 0)), ('both', (1, 1, 0)), ('plain', (1, 1, 1))):
+        v = copy.deepcopy(case)
+        for op in v['ops']:
+            if op['kind'] == 'merge':
+                continue
+            sp = list(op.get('spell', PLAIN))
+            if pi:
+                sp[0] = 'tuple'
+            if pe:
+                sp[1] = 'tuple'
+            op['spell'] = sp
+            op['call'] = 'kw' if pc else op.get('call', 'kw')
+        if _spelling_of(v) != _spelling_of(case):
+            out[name] = v
+    return out
+
+
+def _spelling_of(case):
+    return [(tuple(o.get('spell', PLAIN)), o.get('call', 'kw')) for o in case['ops'] if o['kind'] != 'merge']
+
+
+def spelled_key(key, case, n, still):
+    """Finding class of a disagreement, given what re-spelling the arguments does to it.  `case` disagrees first at
+    operation n (0: at the end of the session) with class `key`; still[name] tells whether the re-spelled session
+    `name` (see respelled; a missing name is the session itself) shows the same disagreement.  When the plainly
+    spelled session still shows it the class is `key`; otherwise the class is the operation and the spelling the
+    answer depends on (whatever the clause: with a tuple the answer is the one of Browser.tla)."""
+    if still.get('plain', True):
+        return key
+    op = case['ops'][n - 1] if n else None
+    head = 'C17/%s/answer-depends-on-spelling/' % (op['kind'] if op else 'session')
+    if still.get('both', True):
+        return head + 'positional-call'
+    if op is None or op['kind'] == 'merge':
+        return head + 'of-an-earlier-query'
+    si, se = op.get('spell', PLAIN)
+    parts = []
+    if not still.get('incl', True):
+        parts.append('include-as-' + si)
+    if not still.get('excl', True):
+        parts.append('exclude-as-' + se)
+    if len(parts) != 1:
+        return head + 'include+exclude'      # re-spelling both removes it (the text and the case tell how they were spelled)
+    return head + parts[0]
+
+
+# ---------------------------------------------------------------------------------------------
 # running a session on the implementation
 
 def _project_item(rend, item, data_key):
@@ -235,14 +353,14 @@ def run_session(case):
         o = dict(kind=op['kind'], tag=None, exc='', out=None, items=[])
         try:
             if op['kind'] == 'filter':
-                new = src.filter_by(include=tuple(_qkey(rend, k, dk) for k in op['incl']),
-                                    exclude=tuple(_qkey(rend, k, dk) for k in op['excl']), **_kwargs(rend, op['kw'], dk))
+                args, kwargs = _query_call(rend, op, dk)
+                new = src.filter_by(*args, **kwargs)
                 o['tag'] = 'browser'
             elif op['kind'] == 'select':
                 new = None
                 try:
-                    item = src.select_by(include=tuple(_qkey(rend, k, dk) for k in op['incl']),
-                                         exclude=tuple(_qkey(rend, k, dk) for k in op['excl']), **_kwargs(rend, op['kw'], dk))
+                    args, kwargs = _query_call(rend, op, dk)
+                    item = src.select_by(*args, **kwargs)
                     o['tag'] = 'item'
                     p, problems = _project_item(rend, item, dk)
                     if problems:
@@ -341,43 +459,46 @@ def _dk_class(case, op=None):
 
 def compare(case, exp, got):
     """First disagreement between what TLC computed (`exp`) and the implementation (`got`):
-    None or (key, text, is_drift)."""
+    None or (key, text, is_drift, n) -- n the 1-based index of the operation, 0 for construction / end of session."""
     if got['problem']:
-        return ('C17/construct/%s' % _dk_class(case), got['problem'], False)
+        return ('C17/construct/%s' % _dk_class(case), got['problem'], False, 0)
     for b, (e, g) in enumerate(zip(exp['bases'], got['bases'])):
         for fld in ('items', 'globals', 'dataKey', 'keys', 'vals'):
             if e[fld] != g[fld]:
                 return ('C17/construct/%s/%s' % (fld, _dk_class(case)),
-                        'base browser %d: %s is %r, Browser.tla expects %r' % (b + 1, fld, g[fld], e[fld]), False)
+                        'base browser %d: %s is %r, Browser.tla expects %r' % (b + 1, fld, g[fld], e[fld]), False, 0)
     for n, (e, op) in enumerate(zip(exp['ops'], case['ops'])):
         if n >= len(got['ops']):
-            return ('C17/harness/short-session', 'operation %d not executed' % (n + 1), False)
+            return ('C17/harness/short-session', 'operation %d not executed' % (n + 1), False, n + 1)
         g = got['ops'][n]
         dkc = _dk_class(case, op)
+        how = _how(op)
         if g['tag'] != e['tag']:
             if g['tag'] == 'raised':
                 exc = g['exc'].split(':')[0]
                 return ('C17/%s/raises-%s/%s' % (op['kind'], exc, dkc),
-                        'operation %d (%s) raised %s; Browser.tla expects %s' % (n + 1, op['kind'], g['exc'], e['tag']), False)
+                        'operation %d (%s) raised %s; Browser.tla expects %s' % (n + 1, how, g['exc'], e['tag']), False, n + 1)
             return ('C17/%s/outcome-%s-instead-of-%s/%s' % (op['kind'], g['tag'], e['tag'], dkc),
-                    'operation %d (%s) answered %s %s; Browser.tla expects %s' % (n + 1, op['kind'], g['tag'], g['exc'], e['tag']),
-                    op['kind'] == 'merge')
+                    'operation %d (%s) answered %s %s; Browser.tla expects %s' % (n + 1, how, g['tag'], g['exc'], e['tag']),
+                    op['kind'] == 'merge', n + 1)
         if e['tag'] == 'browser':
             for fld, name in (('items', 'content'), ('dataKey', 'data-key'), ('globals', 'globals'), ('keys', 'keys'), ('vals', 'values')):
                 if e['out'][fld] != g['out'][fld]:
                     return ('C17/%s/%s/%s' % (op['kind'], name, dkc),
                             'operation %d (%s): %s of the result is %r, Browser.tla expects %r'
-                            % (n + 1, op['kind'], name, g['out'][fld], e['out'][fld]),
-                            op['kind'] == 'merge' and fld == 'globals')
+                            % (n + 1, how, name, g['out'][fld], e['out'][fld]),
+                            op['kind'] == 'merge' and fld == 'globals', n + 1)
         elif e['tag'] == 'item' and e['items'] != g['items']:
-            return ('C17/select/item/%s' % dkc, 'operation %d: selected %r, Browser.tla expects %r' % (n + 1, g['items'], e['items']), False)
+            return ('C17/select/item/%s' % dkc, 'operation %d (%s): selected %r, Browser.tla expects %r'
+                    % (n + 1, how, g['items'], e['items']), False, n + 1)
     for b, (e, g) in enumerate(zip(exp['brs'], got['final'])):
         if e != g:
             return ('C17/browser-modified/%s' % _dk_class(case),
-                    'browser %d re-projected at the end of the session is %r, was %r' % (b + 1, g, e), False)
+                    'browser %d re-projected at the end of the session is %r, was %r' % (b + 1, g, e), False, 0)
     for b, (e, g) in enumerate(zip(exp['bases'], got['inputs'])):
         if e['items'] != g:
-            return ('C17/input-modified/%s' % _dk_class(case), "caller's list %d is %r after the session, was %r" % (b + 1, g, e['items']), False)
+            return ('C17/input-modified/%s' % _dk_class(case), "caller's list %d is %r after the session, was %r" % (b + 1, g, e['items']),
+                    False, 0)
     return None
 
 
@@ -490,6 +611,47 @@ def replay_case(case):
         detail = 'TLC rejects operation %d, clause %s; observed %r' % (n, clause, got['ops'][n - 1] if n else got['final'])
         return False, detail
     return True, 'session of %d operations accepted by BrowserTrace' % len(got['ops'])
+
+
+def _first_bad(bad, ident):
+    """First disagreement (op index, clause) TLC reports for the session `ident`: operations in order, end of session last."""
+    mine = sorted((b for b in bad if b[0] == ident), key=lambda b: (b[1] == 0, b[1], b[2]))
+    return (mine[0][1], mine[0][2]) if mine else None
+
+
+def name_spellings(found, byid, wd):
+    """cid -> finding class (see spelled_key) of the sessions TLC rejected: every such session is run again with its arguments re-spelled
+    the plain way (see respelled) and TLC judges the re-spelled recordings (one more batch, only when something was
+    rejected).  A recording identical to the original one needs no second verdict."""
+    def recording(case):
+        got = run_session(case)
+        if got['problem']:
+            return None, got, case
+        executed = dict(case, ops=case['ops'][:len(got['ops'])])
+        return to_trace_case(0, executed, got), got, executed
+    still, asked, batch = {}, {}, []
+    for cid, n, clause, key, _ in found:
+        case, executed, got = byid[cid]
+        orig = to_trace_case(0, executed, got)
+        still[cid] = {}
+        for vname, var in respelled(case).items():
+            rec, vgot, vexec = recording(var)
+            if rec is None:
+                still[cid][vname] = False
+            elif rec == orig:
+                still[cid][vname] = True
+            else:
+                ident = 2 * TWIN + len(batch)
+                batch.append(dict(rec, id=ident))
+                asked[ident] = (cid, vname, vexec, vgot, n, key)
+    chunk = 5000
+    for k in range(0, len(batch), chunk):
+        _, bad = validate_batch(batch[k:k + chunk], wd, 'respelled%d' % (k // chunk))
+        for b in batch[k:k + chunk]:
+            cid, vname, vexec, vgot, n, key = asked[b['id']]
+            first = _first_bad(bad, b['id'])
+            still[cid][vname] = first is not None and first[0] == n and trace_key(vexec, vgot, first[0], first[1])[0] == key
+    return {cid: spelled_key(key, byid[cid][0], n, still[cid]) for cid, n, _, key, _ in found}
 
 
 # ---------------------------------------------------------------------------------------------
@@ -629,7 +791,11 @@ def run_c17(ctx):
              "data + 'results' as a metadata key under a custom data key) and every browser / outcome / keys() / "
              'available_values() is compared with the TLC state.  code->spec: seeded random sessions (0-12 items, 4 keys, values '
              'from a pool of mixed hashables, chains <= 4) validated by TLC against BrowserTrace.tla.  distinct_nontrivial counts '
-             'distinct sessions in which some operation returns at least one item.')
+             'distinct sessions in which some operation returns at least one item.  Spelling: in both directions the required / '
+             'forbidden keys of every query (sets in the specification) are handed over, in rotation over the sessions, as tuple, '
+             'list, set, frozenset, dict-keys view, generator, iterator, map object, list naming every key twice, or (empty set) '
+             'not at all, and filter_by is called by keyword / with include positional / with both positional; a disagreement '
+             'that disappears when the same session is re-spelled with keyword tuples is filed under the spelling it depends on.')
     ctx.assume("metadata keys are strings other than 'index' and the data key; values are hashable and not NaN; every item carries the data key")
     ctx.assume('globals of a merge (documented: update of the first by the second) and the ValueError on different data keys are '
                'modelled as documented but a deviation there is reported as drift, the statement does not fix them')
@@ -652,17 +818,22 @@ def run_c17(ctx):
             seen_kinds.update(o['kind'] for o in st['ops'])
             exp = expected_of_state(st)
             crc = zlib.crc32(json.dumps([st['brs'], st['ops']], sort_keys=True).encode())   # TLC's dump order is not deterministic
-            for rname in ('str', 'mixed'):
-                case = case_of_state(st, rname, explicit_default=(crc % 2 == 0))
+            for ridx, rname in enumerate(('str', 'mixed')):
+                case = assign_spellings(case_of_state(st, rname, explicit_default=(crc % 2 == 0)), crc // 2 + 7919 * ridx)
                 got = run_session(case)
                 n_replayed += 1
                 diff = compare(case, exp, got)
                 if diff:
-                    key, text, is_drift = diff
+                    key, text, is_drift, n = diff
                     if is_drift:
                         ctx.drift('%s: %s' % (key, text))
                     else:
-                        ctx.violation(key, text, case, module=MODULE)
+                        # is the disagreement tied to the way the arguments are spelled?  (same TLC state as oracle)
+                        still = {}
+                        for vname, var in respelled(case).items():
+                            d = compare(var, exp, run_session(var))
+                            still[vname] = bool(d) and (d[0], d[3]) == (key, n)
+                        ctx.violation(spelled_key(key, case, n, still), text, case, module=MODULE)
             if _nontrivial(exp):
                 ctx.distinct((name, crc))
             if crc % 4999 == 1:
@@ -684,7 +855,7 @@ def run_c17(ctx):
     n_random = ctx.pick(3000, 20000)
     batch, byid = [], {}
     for cid in range(1, n_random + 1):
-        case = random_case(rng, 'pool' if cid % 2 else 'pool-h')
+        case = assign_spellings(random_case(rng, 'pool' if cid % 2 else 'pool-h'), cid)
         got = run_session(case)
         if got['problem']:
             ctx.violation('C17/construct/%s' % _dk_class(case), got['problem'], case, module=MODULE)
@@ -693,6 +864,7 @@ def run_c17(ctx):
         byid[cid] = (case, executed, got)
         batch.append(to_trace_case(cid, executed, got))
     total_bad = set()
+    found = []
     # binding self-test: corrupted twins of recorded sessions (one field changed / one observation dropped) ride along in
     # the first batch under ids >= TWIN and must be rejected by TLC
     twins = corrupted_twins(batch)
@@ -713,12 +885,16 @@ def run_c17(ctx):
         for cid, (n, clause) in sorted(first.items()):
             case, executed, got = byid[cid]
             key, is_drift = trace_key(executed, got, n, clause)
-            text = ('BrowserTrace rejects operation %d, clause %s: observed %r' % (n, clause, got['ops'][n - 1] if n else got['final']))[:1500]
+            text = ('BrowserTrace rejects operation %d (%s), clause %s: observed %r'
+                    % (n, _how(executed['ops'][n - 1]) if n else 'end of session', clause, got['ops'][n - 1] if n else got['final']))[:1500]
             if is_drift:
                 ctx.drift('%s: %s' % (key, text))
             else:
                 total_bad.add(cid)
-                ctx.violation(key, text, case, module=MODULE)
+                found.append((cid, n, clause, key, text))
+    keys = name_spellings(found, byid, wd)
+    for cid, n, clause, key, text in found:
+        ctx.violation(keys[cid], text, byid[cid][0], module=MODULE)
     ctx.count(evaluations=len(batch), traces=len(batch))
     for cid in list(byid)[:2]:
         ctx.sample(dict(source='random', case=byid[cid][0], observed_tags=[o['tag'] for o in byid[cid][2]['ops']]))
